@@ -69,6 +69,8 @@ char const *tn()
     return "unsigned";
   else if constexpr (std::is_same_v<T, vf::heavy>)
     return "heavy";
+  else if constexpr (std::is_same_v<T, vf::natural>)
+    return "natural";
   else
     return "?";
 }
@@ -306,7 +308,7 @@ struct lib
 template <class T, dim_t N>
 struct ctx
 {
-  static constexpr bool uns = std::is_unsigned_v<T>;
+  static constexpr bool uns = std::is_unsigned_v<T> || std::is_same_v<T, vf::natural>;
   static constexpr ll off = uns ? 3 : 0;    // the corner range is [off-3, off+3]
   static constexpr ll radius = N <= 2 ? 7 : 6;
   std::string tag;
@@ -1291,6 +1293,13 @@ void vf_slice_2() { all_for_type<unsigned>(); }
 void vf_slice_3()
 {
   all_for_type<vf::heavy>();
+  // natural numbers: negation is not the additive inverse; every judged call has a representable (natural) result
+  all_for_type<vf::natural>();
+  // (intermediate results below zero are counted, not judged: the observed-only neighbours - center, distance,
+  // stretch_relative ... - run on the same operands and legitimately leave the naturals; a judged function that does
+  // so shows as a wrong value, because the subtraction saturates)
+  vf::count("natural/observed/intermediate-results-below-zero(all functions)", vf::natural_domain_errors());
+  vf::count("natural/judged-with-a-scalar-without-negatives");
   float_selection<double>("double");
   float_selection<float>("float");
   vf::count("heavy/constructed", vf::heavy_stats().constructed);
